@@ -131,6 +131,15 @@ func (e *C10) Run(c *core.Ctx, idx int) {
 			if len(t) > 65533-6 {
 				t = t[:65533-6]
 			}
+			if r.Chance(1, 5) {
+				// a block whose header is unusable (signature blanked, or a first-directory offset
+				// of 0): it is a segment like any other, what follows it is found all the same
+				if r.Bool() {
+					copy(t, r.PickStr("\x00\x00\x00\x00", "XXXX", "II\x00*", "MM*\x00", "Exif"))
+				} else {
+					copy(t[4:8], []byte{0, 0, 0, 0})
+				}
+			}
 		}
 		segs = append(segs, gen.ExifSeg(t))
 	}
@@ -208,7 +217,7 @@ func (e *C10) Run(c *core.Ctx, idx int) {
 	}
 	// ---- run
 	exifMode := r.Intn(3)   // 0 exact pieces, 1 library DecodeJPEGIfd, 2 exact via ReadFull
-	xmpMode := r.Intn(4)    // 0 nothing, 1 prefix, 2 ReadAll, 3 odd-sized reads to EOF
+	xmpMode := r.Intn(6)    // 0 nothing, 1 prefix, 2 ReadAll, 3 odd-sized reads to EOF, 4 io.Copy, 5 optional interfaces
 	readerKind := r.Intn(3) // 0 plain, 1 small bufio, 2 big bufio
 	var got []c10cb
 	ir := exif2.NewIfdReader(exif2.Logger)
@@ -280,6 +289,47 @@ func (e *C10) Run(c *core.Ctx, idx int) {
 		case 2:
 			b, err := io.ReadAll(rd)
 			cb.bytes, cb.readOK, cb.note = b, err == nil, "all"
+		case 4:
+			// io.Copy prefers the source's WriterTo (and the destination's ReaderFrom): whatever
+			// path it takes, the packet is what arrives
+			var bb bytes.Buffer
+			_, err := io.Copy(struct{ io.Writer }{&bb}, rd)
+			cb.bytes, cb.readOK, cb.note = bb.Bytes(), err == nil, "all"
+		case 5:
+			// the reader's optional interfaces, where it offers them, are bounded like Read
+			var all []byte
+			ok := true
+			if br, is := rd.(io.ByteReader); is {
+				for {
+					b, err := br.ReadByte()
+					if err != nil {
+						ok = err == io.EOF
+						break
+					}
+					all = append(all, b)
+					if len(all) > 1<<20 {
+						ok = false
+						break
+					}
+				}
+			} else if pd, is := rd.(interface {
+				Peek(int) ([]byte, error)
+				Discard(int) (int, error)
+			}); is {
+				for {
+					pk, err := pd.Peek(512)
+					all = append(all, pk...)
+					_, _ = pd.Discard(len(pk))
+					if err != nil || len(pk) == 0 || len(all) > 1<<20 {
+						ok = len(all) <= 1<<20
+						break
+					}
+				}
+			} else {
+				b, err := io.ReadAll(rd)
+				all, ok = b, err == nil
+			}
+			cb.bytes, cb.readOK, cb.note = all, ok, "all"
 		default:
 			var all []byte
 			buf := make([]byte, r.Pick(1, 3, 7, 333, 4097))
@@ -375,10 +425,11 @@ func (e *C10) Run(c *core.Ctx, idx int) {
 			if big {
 				bo, o = utils.BigEndian, binary.BigEndian
 			}
-			if g.hdr.ByteOrder != bo {
+			validSig := bytes.HasPrefix(tiff, []byte("II*\x00")) || bytes.HasPrefix(tiff, []byte("MM\x00*"))
+			if validSig && g.hdr.ByteOrder != bo {
 				viol("jpeg:exif-byteorder", fmt.Sprintf("Exif callback %d byte order %v want %v", i, g.hdr.ByteOrder, bo))
 			}
-			if g.hdr.FirstIfdOffset != o.Uint32(tiff[4:]) {
+			if validSig && g.hdr.FirstIfdOffset != o.Uint32(tiff[4:]) {
 				viol("jpeg:exif-firstifd", fmt.Sprintf("Exif callback %d first-IFD offset %d want %d", i, g.hdr.FirstIfdOffset, o.Uint32(tiff[4:])))
 			}
 			if int(g.hdr.TiffHeaderOffset) != w.Off+10 {
